@@ -219,7 +219,7 @@ func main() {
 	r := ev.Start("C04")
 	defer r.RecoverMain()
 	defer world.Cleanup()
-	r.SetBudget(ev.Pick(r, 240*time.Second, 25*time.Minute))
+	r.SetBudget(ev.Pick(r, 420*time.Second, 30*time.Minute))
 	r.Assume("part (a): sweeper disabled, as in C01; shadow mode steady state", "part (c): the clock seam fixes 'now' of the load; the sweep is represented by its cutoff t_sweep - retention")
 
 	// ---------- (a) ----------
@@ -429,6 +429,142 @@ func main() {
 	pc.Bound = "retention_days {0.5,1,370} x cutoff {-1h,0,1ns,1%,50%,75%,100%,200%} x native/shadow x t_sweep in {t_load, -1ns, -1h} x marker timestamp on a 9-point grid around both cutoffs x local key {absent, older live, newer live}; real SendOnce on B and LoadOnce on A, both with the sweeper enabled; the marker must be in B's snapshot"
 	pc.Samples = []any{"retention_days=1 cutoff=6h native=true marker@(sweepcut-1ns) existing=absent -> must stay absent"}
 	r.AddPart(pc)
+
+	// ---------- (d) shadow mode with the sweeper enabled: deleting old entries, keeping markers until the sweeper takes them ----------
+	{
+		pd := &ev.Part{Name: "d-shadow-capture-with-sweeper", Engine: "E1", Exhaustive: true}
+		verifhook.SetNow(func(site string, t time.Time) time.Time { return time.Unix(0, int64(clock)) })
+		verifhook.SetSkip(func(site string) bool { return true })
+		day := uint64(24 * time.Hour)
+		for _, cfgc := range []struct {
+			days   float32
+			buffer time.Duration
+		}{{10, 5 * 24 * time.Hour}, {2, 0}, {30, time.Hour}} {
+			sw := config.Sweeper{Enabled: true, RetentionDays: cfgc.days, RetentionLoadCutoffDuration: cfgc.buffer, Interval: time.Hour, FirstInterval: time.Hour, LockDuration: time.Second, ReleaseDuration: time.Second}
+			R := uint64(sw.RetentionDuration())
+			Rm := uint64(sw.RetentionDurationMinusCutoff())
+			// age of the entry / marker at the decisive step: well inside, just inside the load cutoff, between load cutoff and retention
+			for _, age := range []uint64{day / 2, Rm - 1, Rm + (R-Rm)/2, R - 1} {
+				if age >= R || age == 0 {
+					continue
+				}
+				for _, scenario := range []string{"delete-old-entry", "marker-ages-then-older-version-arrives"} {
+					bkt := world.NewBucket()
+					peer := inst.New("p", bkt, inst.Opt{Native: true})
+					a := inst.New("a", bkt, inst.Opt{Native: false, Sweeper: &sw})
+					t0 := tLoad
+					desc := fmt.Sprintf("retention_days=%v buffer=%v age=%v scenario=%s", cfgc.days, cfgc.buffer, time.Duration(age), scenario)
+					rep := map[string]any{"retention_days": cfgc.days, "buffer_ns": int64(cfgc.buffer), "age_ns": age, "scenario": scenario}
+					appHas := func() bool {
+						_, ok := world.PlainContent(a.Env.RawDump(), world.PickNative)["d"]["k"]
+						return ok
+					}
+					shadowOf := func() (world.Ver, bool) {
+						lc, err := world.HeaderLC(a.Env.RawDump(), world.PickShadow)
+						if err != nil {
+							ev.Fatal("%v", err)
+						}
+						v, ok := lc["d"]["k"]
+						return v, ok
+					}
+					// the peer holds a live version of k written `age` (or more) before the decisive moment
+					oldTS := t0 - age
+					if scenario == "marker-ages-then-older-version-arrives" {
+						oldTS = t0 - age - day
+					}
+					peer.AppTxn(func(txn *lmdb.Txn) error {
+						inst.NativePut(txn, "d", []byte("k"), oldTS, false, []byte("v-old"))
+						inst.NativePut(txn, "d", []byte("other"), t0-1000, false, []byte("o"))
+						return nil
+					})
+					clock = t0 - age - day/2
+					if clock < oldTS {
+						clock = oldTS + 1
+					}
+					if _, err := peer.Send(); err != nil {
+						ev.Fatal("send: %v", err)
+					}
+					pname := bkt.Names()[0]
+					pdata, _ := bkt.Get(pname)
+					fail := func(sig, msg string) { r.Violate(pd.Name, sig, desc+": "+msg, rep) }
+					switch scenario {
+					case "delete-old-entry":
+						// a merges the peer's snapshot now (the entry is `age` old), the application deletes k, the change is captured
+						clock = t0
+						if _, _, err := a.Load(pname, pdata, 0); err != nil {
+							fail("load-error", err.Error())
+							break
+						}
+						if !appHas() {
+							fail("old-live-entry-not-merged", "application does not see k after the merge")
+							break
+						}
+						a.AppTxn(func(txn *lmdb.Txn) error { inst.PlainDel(txn, "d", 0, []byte("k"), nil); return nil })
+						clock = t0 + 1000
+						if _, err := a.Send(); err != nil {
+							fail("send-error", err.Error())
+							break
+						}
+						if v, ok := shadowOf(); !ok || !v.Deleted {
+							fail("deletion-of-old-entry-not-recorded", fmt.Sprintf("after the capture the shadow DBI has %v (present=%v) for k, expected a deletion marker stamped now", v, ok))
+						}
+						// the peer's snapshot (still carrying the old live version) is merged again: k stays deleted
+						clock = t0 + 2000
+						if _, _, err := a.Load(pname, pdata, 1<<62); err != nil {
+							fail("load-error", err.Error())
+							break
+						}
+						if appHas() {
+							fail("deleted-key-resurrected", "k is back in the application DBI after merging the peer's older live version")
+						}
+					case "marker-ages-then-older-version-arrives":
+						// k exists locally (captured at t0-age-day/2), the application deletes it at t0-age, the marker ages, a capture pass runs, then the older version arrives
+						a.AppTxn(func(txn *lmdb.Txn) error { inst.PlainPut(txn, "d", 0, []byte("k"), []byte("v-local")); return nil })
+						if _, err := a.Send(); err != nil {
+							fail("send-error", err.Error())
+							break
+						}
+						a.AppTxn(func(txn *lmdb.Txn) error { inst.PlainDel(txn, "d", 0, []byte("k"), nil); return nil })
+						clock = t0 - age
+						if _, err := a.Send(); err != nil {
+							fail("send-error", err.Error())
+							break
+						}
+						if v, ok := shadowOf(); !ok || !v.Deleted || v.TS != t0-age {
+							fail("deletion-not-recorded", fmt.Sprintf("shadow has %v (present=%v), expected a marker stamped %d", v, ok, t0-age))
+							break
+						}
+						// time passes: the marker is `age` old (younger than the retention: the sweeper would keep it); another local change is captured
+						clock = t0
+						a.AppTxn(func(txn *lmdb.Txn) error { inst.PlainPut(txn, "d", 0, []byte("unrelated"), []byte("u")); return nil })
+						if _, err := a.Send(); err != nil {
+							fail("send-error", err.Error())
+							break
+						}
+						if v, ok := shadowOf(); !ok || !v.Deleted {
+							fail("marker-dropped-by-capture-pass", fmt.Sprintf("a capture pass removed the %v old marker of k (retention %v): shadow has %v present=%v", time.Duration(age), time.Duration(R), v, ok))
+						}
+						clock = t0 + 1000
+						if _, _, err := a.Load(pname, pdata, 1<<62); err != nil {
+							fail("load-error", err.Error())
+							break
+						}
+						if appHas() {
+							fail("deleted-key-resurrected", "k is back in the application DBI after a lagging peer's older live version arrived, still inside the retention")
+						}
+					}
+					pd.Executions++
+					pd.Transitions += 5
+					a.Destroy()
+					peer.Destroy()
+				}
+			}
+		}
+		verifhook.SetNow(nil)
+		pd.States, pd.Distinct = pd.Executions, 2
+		pd.Bound = "shadow-mode instance with the sweeper enabled x (retention 10 d / buffer 5 d, 2 d / default buffer, 30 d / 1 h) x entry or marker age {12 h, just inside the load cutoff, between load cutoff and retention, retention-1ns} x {the application deletes an old merged entry; a marker ages past the load cutoff, a capture pass runs, a lagging peer's older live version arrives}"
+		r.AddPart(pd)
+	}
 
 	r.Finish()
 }
